@@ -43,6 +43,7 @@ func init() {
 			"tagbody tags are integers in the main alphabet; symbol tags are the separate kind tagbody-sym, used only in the complete depths, and while the build under test evaluates a fallen-through symbol tag (probed once per process) programs holding one get coarse signatures (ctx=tagbody-sym ...)",
 			"a defun context is defined at top level (a lexical boundary: outer blocks and tags are not visible in it); defun-in is defined inside its parent's body and lambda is called in place, so both see the enclosing blocks and tags",
 			"(funcall f) with no further argument is rejected by slip (a C04 finding), so lambdas take one dummy argument",
+			"re-entrant exits (reentrant.go): 7 exit kinds x recursion from the cleanup form (direct / through a helper) x with and without a completed warm-up call x recursion depth 1..2 (1..4 thorough): the same exit form runs again while the outer activation's exit is still in flight",
 		},
 		Enumerate: enumerate,
 		Exec:      exec,
@@ -52,7 +53,7 @@ func init() {
 			"error-handled", "error-unhandled", "exit-on-later-iteration", "exit-through-function", "cleanup-nested>=2",
 			"mutex-checked", "stream-checked", "nontrivial-passed",
 			"cleanup-fails-on-normal-exit", "cleanup-fails-on-return", "cleanup-fails-on-go", "cleanup-fails-on-error",
-			"cleanup-error-handled", "cleanup-error-unhandled", "cleanup-error-through-outer-cleanup",
+			"cleanup-error-handled", "cleanup-error-unhandled", "cleanup-error-through-outer-cleanup", "reentrant-exit-in-flight",
 		},
 		Bound:         bound,
 		Selftest:      selftest,
@@ -385,6 +386,7 @@ func cfg(tier string) tierCfg {
 }
 
 func enumerate(tier string, emit func(string)) {
+	enumReentrant(tier, emit)
 	enumPrograms(tier, func(p *program) { emit(p.spec()) })
 }
 
@@ -800,6 +802,9 @@ func exec(spec string) (res engine.Result) {
 		v, tr, err := lisp.Run(spec[4:])
 		res.Outcome = "val=" + v + " trace=" + strings.Join(tr, ",") + " err=" + err.String()
 		return
+	}
+	if strings.HasPrefix(spec, "re|") {
+		return execReentrant(spec)
 	}
 	p, perr := parseSpec(spec)
 	if perr != nil {
